@@ -20,6 +20,8 @@ import (
 	"strings"
 	"testing"
 	"time"
+
+	"github.com/rqlite/rqlite/v10/command/proto"
 )
 
 func c33FullDump(t *testing.T, s *Store) string {
@@ -88,10 +90,36 @@ func c33History(t *testing.T, rep *vfReport, r *vfRng, nOps int, fk bool) (ops, 
 		if e.broken {
 			break
 		}
+		// sometimes the LAST command entry in the log is one that changes nothing: a NOOP,
+		// a strong read (it travels through the log) or a load of invalid data
+		tailKind := ""
+		if r.Chance(50) {
+			e.exec(false, e.genStmts()) // make sure there is something to lose before it
+			switch r.Intn(3) {
+			case 0:
+				mustNoop(e.s, "c33")
+				tailKind = "noop"
+			case 1:
+				qr := queryRequestFromString("SELECT count(*) FROM kv", false, false, false)
+				qr.Level = proto.ConsistencyLevel_STRONG
+				if _, _, _, err := e.s.Query(context.Background(), qr); err != nil {
+					t.Fatalf("strong read: %v", err)
+				}
+				tailKind = "strong-read"
+			default:
+				e.loadBad(0)
+				tailKind = "invalid-load"
+			}
+			if tailKind != "invalid-load" {
+				e.emit("exec 0 d:999", "ok")
+				e.hist = append(e.hist, tailKind)
+			}
+			rep.Count("log-tail-ends-with-" + tailKind)
+		}
 		e.dump("table-wrong-before-shutdown")
 		before := c33FullDump(t, e.s)
 		// shutdown, with or without the snapshot-on-close
-		snapOnClose := r.Chance(40)
+		snapOnClose := r.Chance(40) && tailKind == ""
 		e.s.NoSnapshotOnClose = !snapOnClose
 		addrOld := e.s.Addr()
 		if err := e.s.Close(true); err != nil {
